@@ -4,6 +4,8 @@
 # built against it, checks run with a scratch VERIF_DIR (so evidence/ and replays/ of /verif are
 # not overwritten). With "tests" as 5th arg also runs the repository's own test suite (v2 and
 # execution modules) on the patched worktree. Prints one line per property: CAUGHT / MISSED / BROKEN.
+# BASE=<commit> evaluates against that commit of /repo instead of HEAD (for a stored break whose patch no longer
+# applies because a later fix: commit rewrote the code it touches).
 # (Equivalent to: git -C /repo apply <patch>; scripts/check.sh <PROP>; git -C /repo checkout -- .)
 set -u
 PATCH=$(readlink -f "$1"); NAME=$2; PROPS=$3; TIER=${4:-quick}; TESTS=${5:-}
@@ -12,7 +14,7 @@ WT=/tmp/sbe-$NAME; VD=/tmp/sbe-$NAME-verif; OUT=/tmp/sbe-$NAME-bin
 cleanup() { git -C /repo worktree remove --force "$WT" 2>/dev/null; rm -rf "$WT" "$VD" "$OUT"; git -C /repo worktree prune; }
 trap cleanup EXIT
 cleanup
-git -C /repo worktree add --detach -q "$WT" HEAD || exit 3
+git -C /repo worktree add --detach -q "$WT" "${BASE:-HEAD}" || exit 3
 git -C "$WT" apply "$PATCH" || { echo "PATCH-DOES-NOT-APPLY $NAME"; exit 3; }
 mkdir -p "$VD/evidence" "$VD/replays"
 ln -s /verif/harness "$VD/harness"; ln -s /verif/known_findings.json "$VD/known_findings.json"; ln -s /verif/scripts "$VD/scripts"; ln -s /verif/properties.jsonl "$VD/properties.jsonl"
